@@ -36,6 +36,9 @@ func vAcceptObligations(km *VKeyMaterial, recvRole int, b []byte, valid bool, r 
 	vr.Cover("c02.accepted-plain")
 	// handled as an unprotected datagram only if it does not present an Encrypted payload up front
 	vr.Assert("c02.plain-only-when-not-sk", len(r.Payloads) == 0 || r.Payloads[0].Type() != message.TypeSK)
+	// nor when its header announces one as the first payload and payload octets follow (the tolerated
+	// alteration is a first-payload type that no longer says Encrypted)
+	vr.Assert("c02.plain-only-when-not-announced-sk", len(b) <= 28 || b[16] != 46)
 	d := new(message.IKEMessage)
 	derr := d.Decode(b)
 	vr.Assert("c02.plain-when-not-sk", derr == nil && message.VEqMessage(d, r))
